@@ -984,6 +984,279 @@ private theorem decFB_enc (t : Text) (ht : ∀ c ∈ t, Scalar c) :
 theorem utf8_roundtrip_backslashreplace (t : Text) (ht : ∀ c ∈ t, Scalar c) : utf8decBS (utf8enc t) = t :=
   decFB_enc t ht _ (Nat.le_refl _)
 
+/-! ### what the decoders hand to the validator is always encodable text -/
+
+private theorem decStepE_scalar (bs : NBytes) (hb : ∀ b ∈ bs, b < 256) (c : Nat)
+    (h : (decStepE bs).1 = some c) : Scalar c := by
+  unfold decStepE at h
+  cases bs with
+  | nil => simp at h
+  | cons n0 t =>
+    simp only at h
+    have h0 : n0 < 256 := hb n0 (by simp)
+    split at h
+    · simp at h; subst h; exact ⟨by omega, by omega⟩
+    · split at h
+      · cases t with
+        | nil => simp at h
+        | cons n1 t1 =>
+          simp only at h
+          split at h
+          · rename_i hc1
+            simp [isCont] at hc1
+            simp at h; subst h; exact ⟨by omega, by omega⟩
+          · simp at h
+      · split at h
+        · cases t with
+          | nil => simp at h
+          | cons n1 t1 =>
+            simp only at h
+            split at h
+            · simp at h
+            · rename_i hok
+              cases t1 with
+              | nil => simp at h
+              | cons n2 t2 =>
+                simp only at h
+                split at h
+                · rename_i hc2
+                  simp [isCont] at hc2
+                  simp [ok3, isCont] at hok
+                  simp at h; subst h
+                  refine ⟨by omega, ?_⟩
+                  rcases hok with ⟨⟨_, he0⟩, hed⟩
+                  by_cases hE : n0 = 0xED
+                  · have := hed hE; omega
+                  · omega
+                · simp at h
+        · split at h
+          · cases t with
+            | nil => simp at h
+            | cons n1 t1 =>
+              simp only at h
+              split at h
+              · simp at h
+              · rename_i hok
+                cases t1 with
+                | nil => simp at h
+                | cons n2 t2 =>
+                  simp only at h
+                  split at h
+                  · simp at h
+                  · rename_i hc2
+                    cases t2 with
+                    | nil => simp at h
+                    | cons n3 t3 =>
+                      simp only at h
+                      split at h
+                      · rename_i hc3
+                        simp [isCont] at hc2 hc3
+                        simp [ok4, isCont] at hok
+                        simp at h; subst h
+                        rcases hok with ⟨⟨_, hf0⟩, hf4⟩
+                        constructor
+                        · by_cases hF : n0 = 0xF4
+                          · have := hf4 hF; omega
+                          · omega
+                        · by_cases hF : n0 = 0xF0
+                          · have := hf0 hF; omega
+                          · omega
+                      · simp at h
+          · simp at h
+
+private theorem bsEscape_scalar (b : Nat) (hb : b < 256) : ∀ c ∈ bsEscape b, Scalar c := by
+  intro c hc
+  have h1 : b / 16 < 16 := by omega
+  have h2 : b % 16 < 16 := by omega
+  simp only [bsEscape, List.mem_cons, List.not_mem_nil, or_false] at hc
+  have hd : ∀ n, n < 16 → hexDigitN n < 128 := by
+    intro n hn; unfold hexDigitN; split <;> omega
+  rcases hc with rfl | rfl | rfl | rfl
+  · exact ⟨by omega, by omega⟩
+  · exact ⟨by omega, by omega⟩
+  · have := hd _ h1; exact ⟨by omega, by omega⟩
+  · have := hd _ h2; exact ⟨by omega, by omega⟩
+
+private theorem decFB_scalar : ∀ (f : Nat) (bs : NBytes), (∀ b ∈ bs, b < 256) → ∀ c ∈ decFB f bs, Scalar c := by
+  intro f
+  induction f with
+  | zero => intro bs _ c hc; cases bs <;> simp [decFB] at hc
+  | succ f ih =>
+    intro bs hb c hc
+    cases bs with
+    | nil => simp [decFB] at hc
+    | cons b t =>
+      simp only [decFB, List.mem_append] at hc
+      rcases hc with hc | hc
+      · cases hs : (decStepE (b :: t)).1 with
+        | some x =>
+          simp only [hs, List.mem_singleton] at hc
+          subst hc
+          exact decStepE_scalar (b :: t) hb _ hs
+        | none =>
+          simp only [hs, List.mem_flatMap] at hc
+          obtain ⟨y, hy, hcy⟩ := hc
+          exact bsEscape_scalar y (hb y (List.mem_of_mem_take hy)) c hcy
+      · exact ih _ (fun y hy => hb y (List.mem_of_mem_drop hy)) c hc
+
+/-- **the SOCKS5 user / password handed to the validator are texts of Unicode scalar values** for EVERY byte string the
+    client sends (a decoded code point is never a surrogate or above U+10FFFF; a malformed range becomes ASCII
+    `\xNN` escapes) — so the validator's own `password.encode("utf-8")` cannot fail on them. -/
+theorem socks_decoded_text_is_scalar (b : Bytes) : ∀ c ∈ utf8decBS (b.map (·.toNat)), Scalar c := by
+  apply decFB_scalar
+  intro x hx
+  simp only [List.mem_map] at hx
+  obtain ⟨y, _, rfl⟩ := hx
+  exact UInt8.toNat_lt y
+
+private theorem decStepR_eq (n0 : Nat) (t : NBytes) :
+    decStepR (n0 :: t) = (((decStepE (n0 :: t)).1).getD 0xFFFD, (decStepE (n0 :: t)).2) := by
+  unfold decStepR decStepE
+  · simp only
+    split
+    · rfl
+    · split
+      · cases t with
+        | nil => rfl
+        | cons n1 t1 => simp only; split <;> rfl
+      · split
+        · cases t with
+          | nil => rfl
+          | cons n1 t1 =>
+            simp only
+            split
+            · rfl
+            · cases t1 with
+              | nil => rfl
+              | cons n2 t2 => simp only; split <;> rfl
+        · split
+          · cases t with
+            | nil => rfl
+            | cons n1 t1 =>
+              simp only
+              split
+              · rfl
+              · cases t1 with
+                | nil => rfl
+                | cons n2 t2 =>
+                  simp only
+                  split
+                  · rfl
+                  · cases t2 with
+                    | nil => rfl
+                    | cons n3 t3 => simp only; split <;> rfl
+          · rfl
+
+private theorem decFR_scalar : ∀ (f : Nat) (bs : NBytes), (∀ b ∈ bs, b < 256) → ∀ c ∈ decFR f bs, Scalar c := by
+  intro f
+  induction f with
+  | zero => intro bs _ c hc; cases bs <;> simp [decFR] at hc
+  | succ f ih =>
+    intro bs hb c hc
+    cases bs with
+    | nil => simp [decFR] at hc
+    | cons b t =>
+      simp only [decFR, List.mem_cons] at hc
+      rcases hc with rfl | hc
+      · rw [decStepR_eq]
+        cases hs : (decStepE (b :: t)).1 with
+        | some x => simpa using decStepE_scalar (b :: t) hb _ hs
+        | none => exact ⟨by simp, by simp⟩
+      · exact ih _ (fun y hy => hb y (List.mem_of_mem_drop hy)) c hc
+
+private theorem a2bVal_lt (c v : Nat) (h : a2bVal c = some v) : v < 64 := by
+  unfold a2bVal at h
+  split at h
+  · simp at h; omega
+  · split at h
+    · simp at h; omega
+    · split at h
+      · simp at h; omega
+      · split at h
+        · simp at h; omega
+        · split at h
+          · simp at h; omega
+          · simp at h
+
+/-- the left-over bits fit the quad position -/
+private def StOk (s : St) : Prop :=
+  (s.quad = 1 → s.left < 64) ∧ (s.quad = 2 → s.left < 16) ∧ (s.quad = 3 → s.left < 4) ∧ s.quad < 4 ∧
+  ∀ b ∈ s.out, b < 256
+
+private theorem a2bLoop_bytes : ∀ (data : NBytes) (s : St), StOk s → ∀ r, a2bLoop data s = some r → ∀ b ∈ r, b < 256 := by
+  intro data
+  induction data with
+  | nil =>
+    intro s hs r h b hb
+    simp only [a2bLoop] at h
+    split at h
+    · cases h
+    · simp only [Option.some.injEq] at h; subst h
+      exact hs.2.2.2.2 b (by simpa using hb)
+  | cons c cs ih =>
+    intro s hs r h
+    rw [a2bLoop] at h
+    split at h
+    · split at h
+      · simp only [Option.some.injEq] at h; subst h
+        intro b hb; exact hs.2.2.2.2 b (by simpa using hb)
+      · refine ih _ ?_ r h
+        split
+        · exact hs
+        · exact hs
+    · cases hv : a2bVal c with
+      | none => simp only [hv] at h; exact ih s hs r h
+      | some v =>
+        have hv64 := a2bVal_lt c v hv
+        simp only [hv] at h
+        obtain ⟨h1, h2, h3, h4, hout⟩ := hs
+        by_cases q0 : s.quad = 0
+        · have h' : a2bLoop cs ⟨1, v, 0, s.out⟩ = some r := by simpa [q0] using h
+          exact ih ⟨1, v, 0, s.out⟩ ⟨fun _ => hv64, by simp, by simp, by simp, hout⟩ r h'
+        by_cases q1 : s.quad = 1
+        · have h' : a2bLoop cs ⟨2, v % 16, 0, (s.left * 4 + v / 16) :: s.out⟩ = some r := by simpa [q1] using h
+          refine ih ⟨2, v % 16, 0, (s.left * 4 + v / 16) :: s.out⟩
+            ⟨by simp, fun _ => by show v % 16 < 16; omega, by simp, by simp, ?_⟩ r h'
+          intro b hb
+          simp only [List.mem_cons] at hb
+          rcases hb with rfl | hb
+          · have := h1 q1; omega
+          · exact hout b hb
+        by_cases q2 : s.quad = 2
+        · have h' : a2bLoop cs ⟨3, v % 4, 0, (s.left * 16 + v / 4) :: s.out⟩ = some r := by simpa [q2] using h
+          refine ih ⟨3, v % 4, 0, (s.left * 16 + v / 4) :: s.out⟩
+            ⟨by simp, by simp, fun _ => by show v % 4 < 4; omega, by simp, ?_⟩ r h'
+          intro b hb
+          simp only [List.mem_cons] at hb
+          rcases hb with rfl | hb
+          · have := h2 q2; omega
+          · exact hout b hb
+        · have q3 : s.quad = 3 := by omega
+          have h' : a2bLoop cs ⟨0, 0, 0, (s.left * 64 + v) :: s.out⟩ = some r := by simpa [q3] using h
+          refine ih ⟨0, 0, 0, (s.left * 64 + v) :: s.out⟩ ⟨by simp, by simp, by simp, by simp, ?_⟩ r h'
+          intro b hb
+          simp only [List.mem_cons] at hb
+          rcases hb with rfl | hb
+          · have := h3 q3; omega
+          · exact hout b hb
+
+/-- `a2b_base64` yields bytes -/
+theorem a2b_bytes (data r : NBytes) (h : a2b data = some r) : ∀ b ∈ r, b < 256 :=
+  a2bLoop_bytes data {} ⟨by simp, by simp, by simp, by simp, by simp⟩ r h
+
+/-- **whatever token a client presents, the user / password text that reaches the validator consists of Unicode
+    scalar values** (`bytes.decode("utf8", "replace")` never yields a surrogate): together with
+    `socks_decoded_text_is_scalar`, the validator's `password.encode("utf-8")` cannot raise on any path. -/
+theorem basic_decoded_text_is_scalar (tok txt : Text) (h : decodeCredStd tok = some txt) : ∀ c ∈ txt, Scalar c := by
+  have hb : ∀ raw, a2b (utf8enc tok) = some raw → ∀ b ∈ raw, b < 256 := fun raw hr => a2b_bytes _ raw hr
+  unfold decodeCredStd at h
+  cases hr : a2b (utf8enc tok) with
+  | none => simp [hr] at h
+  | some raw =>
+    simp only [hr, Option.map_some, Option.some.injEq] at h
+    subst h
+    exact decFR_scalar _ raw (hb raw hr)
+
 /-- the standard library of the running interpreter: the regenerated `str.isspace` / `str.lower` tables, and
     `a2b_base64` / `str.encode` as transcribed; the UTF-8 "replace" decoder `dec` is the remaining parameter -/
 structure StdLib (L : Lib) (dec : NBytes → Text) : Prop where
